@@ -218,6 +218,7 @@ OP_KINDS = [
     "insert_node", "split", "join", "lift", "wrap", "set_block_type", "set_node_markup",
     "add_mark", "remove_mark", "add_node_mark", "remove_node_mark", "set_node_attribute",
     "set_doc_attribute", "raw_step", "replace_with_self", "mark_run", "seam_pair", "mark_sweep",
+    "clear_incompatible",
 ]
 
 DEFAULT_MIX = {
@@ -225,7 +226,7 @@ DEFAULT_MIX = {
     "paste_range": 4, "insert_node": 4, "split": 4, "join": 3, "lift": 3, "wrap": 3,
     "set_block_type": 4, "set_node_markup": 2, "add_mark": 5, "remove_mark": 3,
     "add_node_mark": 2, "remove_node_mark": 1, "set_node_attribute": 3, "set_doc_attribute": 2,
-    "raw_step": 3, "replace_with_self": 1, "mark_run": 1, "mark_sweep": 1,
+    "raw_step": 3, "replace_with_self": 1, "mark_run": 1, "mark_sweep": 1, "clear_incompatible": 1,
 }
 
 
@@ -322,6 +323,30 @@ def gen_op_(rng, kind, doc, sel, pool):
                     return op
         return None
     if kind == "join":
+        if rng.random() < 0.3:
+            # a join whose second block is empty, followed by the join with the next sibling: two
+            # consecutive structural steps at one and the same position
+            emp = []
+
+            def f(node, pos, parent, index):
+                if not node.is_leaf and not node.is_text and node.content.size == 0 and index > 0:
+                    emp.append(pos)
+
+            doc.descendants(f)
+            emp = [p for p in emp if pt.can_join(doc, p)]
+            if emp:
+                return {"op": "join", "pos": rng.choice(emp), "depth": 1, "then": "join_next"}
+            # no empty block around: make one first by splitting at the very end of the first block
+            tb = []
+
+            def g(node, pos, parent, index):
+                if node.is_textblock and index + 1 < parent.child_count:
+                    tb.append(pos + node.node_size)
+
+            doc.descendants(g)
+            tb = [p for p in tb if pt.can_join(doc, p) and pt.can_split(doc, p - 1)]
+            if tb:
+                return {"op": "join", "pos": rng.choice(tb), "depth": 1, "then": "join_next", "pre": "split_end"}
         cands = ([sf] if near else []) + [rand_pos(rng, doc) for _ in range(6)]
         for pos in cands:
             try:
@@ -332,7 +357,7 @@ def gen_op_(rng, kind, doc, sel, pool):
                 op = {"op": "join", "pos": jp, "depth": 1}
                 if rng.random() < 0.4:
                     # keep editing right at the seam (structural step followed by an adjacent edit)
-                    op["then"] = rng.choice(["backspace", "type", "delete_after"])
+                    op["then"] = rng.choice(["backspace", "type", "delete_after", "join_next"])
                 return op
         # raw join between adjacent compatible blocks
         return None
@@ -392,6 +417,18 @@ def gen_op_(rng, kind, doc, sel, pool):
             mk = rand_marks(rng, schema, par, p_none=0.0)
             marks = marks_json(mk) if mk else None
         return {"op": "set_node_markup", "pos": pos, "type": t.name, "attrs": rand_attrs(rng, t), "marks": marks}
+    if kind == "clear_incompatible":
+        # the public helper behind set_block_type: strip what another node type would not admit
+        ps = node_positions(doc, lambda n: not n.is_text and not n.is_leaf)
+        if not ps:
+            return None
+        pos = rng.choice(ps)
+        node = doc.node_at(pos)
+        cands = [t for t in schema.nodes.values()
+                 if not t.is_text and not t.is_leaf and t.is_inline == node.type.is_inline
+                 and t.inline_content == node.type.inline_content]
+        t = rng.choice(cands) if cands else node.type
+        return {"op": "clear_incompatible", "pos": pos, "type": t.name}
     if kind in ("add_mark", "remove_mark"):
         if near and st > sf:
             a, b = sf, st
@@ -783,6 +820,12 @@ def apply_op(tr, op):
         tr.split(op["pos"], op["depth"], ta)
     elif k == "join":
         inr(op["pos"])
+        if op.get("pre") == "split_end":
+            if op["pos"] < 1 or not pt.can_split(doc, op["pos"] - 1):
+                raise Refused("cannot split")
+            tr.split(op["pos"] - 1)
+            doc = tr.doc
+            size = doc.content.size
         if op["pos"] - op["depth"] < 0 or op["pos"] + op["depth"] > size or not pt.can_join(doc, op["pos"]):
             raise Refused("cannot join")
         tr.join(op["pos"], op["depth"])
@@ -794,6 +837,12 @@ def apply_op(tr, op):
             tr.delete(seam, seam + 1)
         elif then == "type":
             tr.replace_with(seam, seam, schema.text("j", tr.doc.resolve(seam).marks()))
+        elif then == "join_next":
+            r = tr.doc.resolve(seam)
+            if r.depth > 0:
+                p2 = r.after(r.depth)
+                if 0 < p2 < tr.doc.content.size and pt.can_join(tr.doc, p2):
+                    tr.join(p2, 1)
     elif k == "lift":
         inr(op["from"], op["to"])
         r = doc.resolve(op["from"]).block_range(doc.resolve(op["to"]))
@@ -817,6 +866,12 @@ def apply_op(tr, op):
             raise Refused("no node")
         tr.set_node_markup(op["pos"], schema.nodes[op["type"]], op["attrs"],
                            marks_from_json(schema, op["marks"]))
+    elif k == "clear_incompatible":
+        inr(op["pos"])
+        node = doc.node_at(op["pos"])
+        if node is None or node.is_text or node.is_leaf:
+            raise Refused("no node")
+        tr.clear_incompatible(op["pos"], schema.nodes[op["type"]])
     elif k in ("add_mark", "remove_mark"):
         inr(op["from"], op["to"])
         if op["from"] > op["to"]:
